@@ -23,7 +23,7 @@ def check_artefact(ctx, a, stats):
     mode = "orth" if opts.get("orthogonal", True) else "nonorth"
     dy = side["mesh"]["dy_scalar"]
     nf = nfine_of(a)
-    rtol = 150.0 / nf**2  # trapezoid rule on the Nfine-point fine contour, same constant as C05
+    rtol = 200.0 / nf**2  # trapezoid rule on the Nfine-point fine contour, same constant as C05
     regs = {r["myID"]: r for r in side["regions"]}
     myg = int(opts.get("y_boundary_guards", 0))
     closed_x = {}
